@@ -265,10 +265,35 @@ def rule_fresh(R):
                     absent = si["edges"].get(True if neg else False)
                     if absent is not None:
                         need[q].append((bb, absent))
+    # "the list is empty" proves absence as well: the true edge of `<list>.is_empty()` (or of `<list>.len() == 0`)
+    empty = {"retained": [], "pending_release": []}
+    for bb in alloc.switches:
+        if bb not in alloc.reachable:
+            continue
+        si = alloc.switch_info(bb)
+        for alt in phi_alts(si["subject"]):
+            a = peel(alt)
+            neg = False
+            if a[0] == "un" and a[1] == "Not":
+                a, neg = peel(a[2]), True
+            lst = None
+            if is_call(a, "is_empty") and len(a[3]) == 1:
+                lst = chain(peel(a[3][0]))[1]
+            elif a[0] == "bin" and a[1] in ("Eq", "Ne") and any(x[0] == "const" and x[2] == 0 for x in (peel(a[2]), peel(a[3]))):
+                for side in (peel(a[2]), peel(a[3])):
+                    if is_call(side, "len") and len(side[3]) == 1:
+                        lst = chain(peel(side[3][0]))[1]
+                        neg = neg != (a[1] == "Ne")
+            if lst:
+                for q in empty:
+                    if lst[-1:] == [q]:
+                        e_ = si["edges"].get(False if neg else True)
+                        if e_ is not None:
+                            empty[q].append((bb, e_))
     for q, edges in sorted(need.items()):
         ok = bool(edges)
         if ok:
-            ok, off = alloc.must_pass([0], alloc.returns, via_edges=edges)
+            ok, off = alloc.must_pass([0], alloc.returns, via_edges=edges + empty[q])
         R.ob("fresh/%s" % q, ok,
              "the allocator hands out an identifier only on paths where it looked that identifier up in `%s` and found "
              "it absent: after the 16-bit counter wraps, an identifier still waiting for its final acknowledgement must be "
